@@ -48,8 +48,9 @@ Forms(level) ==
        V(E1(AArr(<<E1(AInt(7))>>))),               \* 20  [7]
        V(Slash(AId("~"), w)),                      \* 21  ~ / 'w'
        V(E1(AId("False"))),                        \* 22  False
-       Form("empty", <<>>),                        \* 23  key =
-       Form("noeq", <<>>) >>                       \* 24  a line without `=`
+       V(Plus(a, a)),                              \* 23  a + a
+       Form("empty", <<>>),                        \* 24  key =
+       Form("noeq", <<>>) >>                       \* 25  a line without `=`
     ELSE
     LET narrow == << V(E1(u)),                     \*  1  'u'
                      V(E1(a)),                     \*  2  a
